@@ -237,25 +237,55 @@ func OrdLstFirst(p *load.Program) *report.RuleResult {
 		missing(r, "lst.WriteTo call in writeLST", "not found")
 	}
 	// beginValue: every write happens with the fixed table settled
-	lstPath := "p." + bv.Params[0].Name() + "^.lst"
-	wrotePath := "p." + bv.Params[0].Name() + "^.wroteLST"
-	ev3 := ssau.MustEventsEdge(bv, func(in ssa.Instruction) []string {
-		if calleeIs(in, "binaryWriter", "writeLST") {
-			return []string{"settled"}
+	// settledIn: the must-analysis "the fixed table is absent, already written or written just now" over one
+	// method of the writer; a call of a helper method that returns only in that state settles it too
+	// (the pending-table block extracted into a method of its own).
+	var settledIn func(f *ssa.Function, depth int) *ssau.EventFlow
+	settlesCache := map[*ssa.Function]bool{}
+	settles := func(f *ssa.Function, depth int) bool {
+		if v, ok := settlesCache[f]; ok {
+			return v
 		}
-		return nil
-	}, func(b *ssa.BasicBlock, si int) []string {
-		ifi, ok := b.Instrs[len(b.Instrs)-1].(*ssa.If)
-		if !ok {
-			return nil
+		settlesCache[f] = false
+		if f == nil || depth == 0 || len(f.Blocks) == 0 || recvTypeName(f) != "binaryWriter" || f == bv || f == wl {
+			return false
 		}
-		for _, f := range ssau.CondFacts(ifi.Cond, si == 0) {
-			if (f.Kind == "nil" && f.Path == lstPath) || (f.Kind == "true" && f.Path == wrotePath) {
+		ev := settledIn(f, depth-1)
+		rets := returns(f)
+		ok := len(rets) > 0
+		for _, ret := range rets {
+			ok = ok && ev.At(ret)["settled"]
+		}
+		settlesCache[f] = ok
+		return ok
+	}
+	settledIn = func(f *ssa.Function, depth int) *ssau.EventFlow {
+		lstPath := "p." + f.Params[0].Name() + "^.lst"
+		wrotePath := "p." + f.Params[0].Name() + "^.wroteLST"
+		return ssau.MustEventsEdge(f, func(in ssa.Instruction) []string {
+			if calleeIs(in, "binaryWriter", "writeLST") {
 				return []string{"settled"}
 			}
-		}
-		return nil
-	})
+			if c, ok := in.(ssa.CallInstruction); ok && depth > 0 {
+				if g := c.Common().StaticCallee(); g != nil && g != f && settles(g, depth) {
+					return []string{"settled"}
+				}
+			}
+			return nil
+		}, func(b *ssa.BasicBlock, si int) []string {
+			ifi, ok := b.Instrs[len(b.Instrs)-1].(*ssa.If)
+			if !ok {
+				return nil
+			}
+			for _, f := range ssau.CondFacts(ifi.Cond, si == 0) {
+				if (f.Kind == "nil" && f.Path == lstPath) || (f.Kind == "true" && f.Path == wrotePath) {
+					return []string{"settled"}
+				}
+			}
+			return nil
+		})
+	}
+	ev3 := settledIn(bv, 2)
 	n = 0
 	for _, b := range bv.Blocks {
 		for _, in := range b.Instrs {
